@@ -131,6 +131,12 @@ pub struct FabricInner {
     pub bytes: u64,
     pub max_latency_ns: u64,
     pub unbind_log: Vec<(u64, SocketAddr)>,
+    /// Receive batching (decided per run): datagrams due at the same instant - a burst over a
+    /// constant-latency link, everything held back for a stalled host - are handed to the
+    /// receiving socket together, so that its driver sees them in one poll, as a host that was
+    /// busy for a moment finds them in its socket buffer; otherwise one by one with the
+    /// receiver running in between.
+    batch: bool,
 }
 
 #[derive(Clone)]
@@ -141,6 +147,10 @@ pub struct Fabric {
 
 impl Fabric {
     pub fn new(choice: Choice, default_link: LinkCfg, fault_mode: FaultMode, record_log: bool) -> Self {
+        let batch = {
+            use rand::Rng;
+            choice.stream("cfg:fabric-receive-batching").gen_bool(0.5)
+        };
         Fabric {
             inner: Arc::new(Mutex::new(FabricInner {
                 choice,
@@ -174,6 +184,7 @@ impl Fabric {
                 bytes: 0,
                 max_latency_ns: 0,
                 unbind_log: Vec::new(),
+                batch,
             })),
             t0: tokio::time::Instant::now(),
         }
@@ -450,8 +461,9 @@ impl Fabric {
                             .filter(|until| *until > now);
                         if let Some(until) = hold {
                             *f.counts.entry("stall_held").or_default() += 1;
+                            let spread = if f.batch { 0 } else { (p.seq.0 % 1000) * 1000 };
                             f.heap.push(Pending {
-                                at_ns: std::cmp::Reverse(until + (p.seq.0 % 1000) * 1000),
+                                at_ns: std::cmp::Reverse(until + spread),
                                 ..p
                             });
                             None
@@ -469,6 +481,13 @@ impl Fabric {
                     };
                     if let Some(w) = w {
                         w.wake();
+                    }
+                    {
+                        let f = self.lock();
+                        if f.batch && f.heap.peek().map(|n| n.at_ns.0 <= now).unwrap_or(false) {
+                            // more is due at this very instant: deliver it before anyone runs
+                            continue;
+                        }
                     }
                     tokio::task::yield_now().await;
                 }
